@@ -44,13 +44,23 @@
    * "modifies neither operand": the operands are parameters of map_eq and are
      not returned; moreover
        C14_map_eq_frame        for ANY environment (== may lie or panic) the
-                               surrounding container is untouched, in every outcome
+                               surrounding container [self] (NOT the operands, see
+                               the corrected comment above the theorem) is untouched,
+                               in every outcome;
+       C14_step_OEq_regs, C14_step_SEq_regs (appended section)  the interpreter's
+                               == leaves all four registers - both operands
+                               included - literally unchanged, for EVERY script
        `stable w w'` in C14_map_eq_lawful: no event (drop/clone) is logged either.
    * sets: Set<T,N> = Map<T,(),N>; its == is map_eq with V = unit, whose eqV is
      constantly Yes (FmtSerde.env_set_eqV: veq = fun _ _ => true), so all theorems
      apply with "equal values" trivially true.
 
    PARTLY / NOT COVERED BY A THEOREM (left to the correspondence check)
+   [UPDATE, audit: the APPENDED SECTION at the end of this file now states the
+    iff about map_eq itself (C14_map_eq_iff), reflexivity / symmetry of the RUN
+    (C14_map_eq_refl_run, C14_map_eq_sym_run), the Set instance (C14_set_eq_iff),
+    operand immutability at the interpreter (C14_step_OEq_regs) and the
+    composition with arbitrary histories (C14_map_eq_histories).]
    * Reflexivity/symmetry are stated for the boolean map_eq returns, under the
      corresponding law of the user's V == V (veq v v = true; veq x y = veq y x):
      without it the crate's == is not reflexive/symmetric either.
@@ -125,7 +135,16 @@ Theorem C14_map_eq_perm_r :
 Proof. exact (fun K V => @map_eq_perm_r K V). Qed.
 Print Assumptions C14_map_eq_perm_r.
 
-(* operands untouched, ANY environment *)
+(* CORRECTED COMMENT (audit): this theorem does NOT speak about the operands.
+   a and b are parameters of map_eq, unrelated to [self w]; the conclusion
+   [self w' = self w] says that the container the comparison is RUN ON (the
+   interpreter's current register) is the same afterwards, in every outcome
+   and for ANY environment.  That the operands a and b themselves are not
+   modified is structural: in the model containers are values and map_eq
+   returns only a bool.  The contentful statements about the operands are in
+   the appended section: C14_step_OEq_regs / C14_step_SEq_regs (the interpreter
+   writes back into all four registers literally what they held, for EVERY
+   script) and `stable w w'` in C14_map_eq_iff. *)
 Theorem C14_map_eq_frame :
   forall (K V Q T : Type) (E : env K V Q T) (a b : map K V) (w : world K V T),
     WF a -> WF b ->
@@ -195,3 +214,298 @@ Example C14_example_runs :
   out (map_eq E m3 b_len (w_of (new_map 0))) = Some (false, [], new_map 0) /\
   out (map_eq E b_len m3 (w_of (new_map 0))) = Some (false, [], new_map 0).
 Proof. vm_compute. repeat split; reflexivity. Qed.
+
+(* ======================================================================== *)
+(* APPENDED SECTION — audit findings closed (Proofs/MoreEq.v)                 *)
+(*                                                                          *)
+(*  1. "compare equal EXACTLY WHEN they hold the same keys with equal values" *)
+(*     as ONE theorem about map_eq itself:            C14_map_eq_iff          *)
+(*  2. "reflexive and symmetric" of the RUN map_eq E a a / map_eq E b a:      *)
+(*                              C14_map_eq_refl_run, C14_map_eq_sym_run       *)
+(*  3. "(or two sets)":         C14_set_eq_iff, C14_set_eq_iff_env_set        *)
+(*  4. "modifies neither operand" with content:                               *)
+(*                              C14_step_OEq_regs, C14_step_SEq_regs,         *)
+(*                              C14_step_OEq_view (+ corrected comment above  *)
+(*                              C14_map_eq_frame)                             *)
+(*  5. "regardless of ... the history that produced them":                    *)
+(*                              C14_map_eq_histories, C14_map_eq_same_dict    *)
+(* ======================================================================== *)
+Require Import Proofs.Dict Proofs.ExecSafe Proofs.ExecUniq Proofs.ExecView Proofs.MoreEq.
+
+(* ---------------------------------------------------------------------- *)
+(* 1. Hypotheses: HL the user's == on keys is equality of the classes ck / cq
+   and never panics; HV the user's V == V computes the boolean function veq and
+   never panics; both operands well formed with pairwise different keys (true of
+   every reachable container, C01/C05).  Conclusion: map_eq returns (never
+   panics, never UB), leaves container and log as they were (stable), and its
+   answer is true IF AND ONLY IF at every class c either neither operand stores
+   a key of class c, or both do and the two values are == .  Capacities and slot
+   order do not occur. *)
+Theorem C14_map_eq_iff :
+  forall (K V Q T : Type) (E : env K V Q T) (ck : K -> N) (cq : Q -> N),
+    Lawful E ck cq ->
+    forall veq : V -> V -> bool,
+    (forall (s : T) (a b : V), fst (eqV E s a b) = (if veq a b then Yes else No)) ->
+    forall (a b : map K V) (w : world K V T),
+      WF a -> WF b -> Uniq ck (Spec.elems a) -> Uniq ck (Spec.elems b) ->
+      wp (map_eq E a b)
+         (fun (r : bool) (w' : world K V T) =>
+            stable w w' /\
+            (r = true <->
+             (forall c : N,
+                 match lookup ck (Spec.elems a) c, lookup ck (Spec.elems b) c with
+                 | Some (_, v), Some (_, v') => veq v' v = true
+                 | None, None => True
+                 | _, _ => False
+                 end)))
+         (fun _ : world K V T => False) w.
+Proof. exact (@map_eq_iff). Qed.
+Print Assumptions C14_map_eq_iff.
+
+(* ---------------------------------------------------------------------- *)
+(* 2. The laws of V's == are stated ON THE ENVIRONMENT: x == y and y == x answer
+   alike (in any two callback states) / x == x answers Yes.  Then b == a returns
+   the SAME boolean as a == b, and a == a returns true - as runs of map_eq from
+   the same world, both leaving container and log untouched. *)
+Theorem C14_map_eq_sym_run :
+  forall (K V Q T : Type) (E : env K V Q T) (ck : K -> N) (cq : Q -> N),
+    Lawful E ck cq ->
+    forall veq : V -> V -> bool,
+    (forall (s : T) (a b : V), fst (eqV E s a b) = (if veq a b then Yes else No)) ->
+    forall (a b : map K V) (w : world K V T),
+      (forall (s s' : T) (x y : V), fst (eqV E s x y) = fst (eqV E s' y x)) ->
+      WF a -> WF b -> Uniq ck (Spec.elems a) -> Uniq ck (Spec.elems b) ->
+      exists (r : bool) (w1 w2 : world K V T),
+        map_eq E a b w = Ok r w1 /\ map_eq E b a w = Ok r w2 /\ stable w w1 /\ stable w w2.
+Proof. exact (@map_eq_sym_run). Qed.
+Print Assumptions C14_map_eq_sym_run.
+
+Theorem C14_map_eq_refl_run :
+  forall (K V Q T : Type) (E : env K V Q T) (ck : K -> N) (cq : Q -> N),
+    Lawful E ck cq ->
+    forall veq : V -> V -> bool,
+    (forall (s : T) (a b : V), fst (eqV E s a b) = (if veq a b then Yes else No)) ->
+    forall (a : map K V) (w : world K V T),
+      (forall (s : T) (x : V), fst (eqV E s x x) = Yes) ->
+      WF a -> Uniq ck (Spec.elems a) ->
+      exists w' : world K V T, map_eq E a a w = Ok true w' /\ stable w w'.
+Proof. exact (@map_eq_refl_run). Qed.
+Print Assumptions C14_map_eq_refl_run.
+
+(* the two environment-level laws hold of the interpreter's environment under an
+   honest script *)
+Example C14_example_env_laws :
+  let E := env_map {| sc_adv := false; sc_seed := 0; sc_fk := 0; sc_fa := 0 |} in
+  (forall (s s' : cstate) (x y : vobj), fst (eqV E s x y) = fst (eqV E s' y x)) /\
+  (forall (s : cstate) (x : vobj), fst (eqV E s x x) = Yes).
+Proof.
+  assert (Hh : honest {| sc_adv := false; sc_seed := 0; sc_fk := 0; sc_fa := 0 |}) by (split; reflexivity).
+  split.
+  - intros s s' x y. rewrite !(env_map_eqV _ Hh), (N.eqb_sym (vdat x) (vdat y)). reflexivity.
+  - intros s x. rewrite (env_map_eqV _ Hh), N.eqb_refl. reflexivity.
+Qed.
+
+(* ---------------------------------------------------------------------- *)
+(* 3. Sets.  Set<T,N> = Map<T,(),N>; its == is map_eq at V = unit.  Whenever
+   () == () answers Yes (hypothesis on eqV; true of env_set by computation,
+   FmtSerde.env_set_eqV) two sets compare equal IF AND ONLY IF they hold the
+   same element classes.  The second theorem is the instance for the Set
+   environment of the correspondence check under an honest script. *)
+Theorem C14_set_eq_iff :
+  forall (K Q T : Type) (E : env K unit Q T) (ck : K -> N) (cq : Q -> N),
+    Lawful E ck cq ->
+    (forall (s : T) (a b : unit), fst (eqV E s a b) = Yes) ->
+    forall (a b : map K unit) (w : world K unit T),
+      WF a -> WF b -> Uniq ck (Spec.elems a) -> Uniq ck (Spec.elems b) ->
+      wp (map_eq E a b)
+         (fun (r : bool) (w' : world K unit T) =>
+            stable w w' /\
+            (r = true <->
+             (forall c : N,
+                 In c (List.map (fun p : K * unit => ck (fst p)) (Spec.elems a)) <->
+                 In c (List.map (fun p : K * unit => ck (fst p)) (Spec.elems b)))))
+         (fun _ : world K unit T => False) w.
+Proof. exact (@set_eq_iff). Qed.
+Print Assumptions C14_set_eq_iff.
+
+Theorem C14_set_eq_iff_env_set :
+  forall (sc : script) (a b : map key unit) (w : world key unit cstate),
+    honest sc ->
+    WF a -> WF b -> Uniq kcls (Spec.elems a) -> Uniq kcls (Spec.elems b) ->
+    wp (map_eq (env_set sc) a b)
+       (fun (r : bool) (w' : world key unit cstate) =>
+          stable w w' /\
+          (r = true <->
+           (forall c : N,
+               In c (List.map (fun p : key * unit => kcls (fst p)) (Spec.elems a)) <->
+               In c (List.map (fun p : key * unit => kcls (fst p)) (Spec.elems b)))))
+       (fun _ : world key unit cstate => False) w.
+Proof. exact set_eq_iff_env_set. Qed.
+Print Assumptions C14_set_eq_iff_env_set.
+
+(* two sets {5,6} in different slot orders, capacities 2 and 4, other object
+   identities: equal both ways; {5,6} vs {5,7} and vs {5}: unequal *)
+Example C14_example_sets :
+  let E := env_set {| sc_adv := false; sc_seed := 0; sc_fk := 0; sc_fa := 0 |} in
+  let w0 : world key unit cstate := {| cb := cs0; log := []; self := new_map 0 |} in
+  let s1 : map key unit := {| len := 2; slots := [Some (k_ 1 5, tt); Some (k_ 2 6, tt)] |} in
+  let s2 : map key unit := {| len := 2; slots := [Some (k_ 8 6, tt); Some (k_ 9 5, tt); None; None] |} in
+  let s3 : map key unit := {| len := 2; slots := [Some (k_ 8 7, tt); Some (k_ 9 5, tt); None; None] |} in
+  let s4 : map key unit := {| len := 1; slots := [Some (k_ 9 5, tt); None; None; None] |} in
+  let out (r : res key unit cstate bool) : option (bool * list event * map key unit) :=
+    match r with Ok x w' => Some (x, log w', self w') | _ => None end in
+  out (map_eq E s1 s2 w0) = Some (true, [], new_map 0) /\
+  out (map_eq E s2 s1 w0) = Some (true, [], new_map 0) /\
+  out (map_eq E s1 s3 w0) = Some (false, [], new_map 0) /\
+  out (map_eq E s1 s4 w0) = Some (false, [], new_map 0) /\
+  Uniq kcls (Spec.elems s1) /\ Uniq kcls (Spec.elems s2).
+Proof.
+  vm_compute. repeat split; try reflexivity;
+    repeat (constructor; [cbn [In]; intuition discriminate|]); constructor.
+Qed.
+
+(* ---------------------------------------------------------------------- *)
+(* 4. "modifies neither operand".  In the model containers are values, so the
+   operands a, b of map_eq CANNOT be modified by it (structural).  What has
+   content is the interpreter: `OEq r r'` (Map) / `SEq r r'` (Set) runs the
+   comparison on the containers held by registers r and r' and writes register r
+   back.  regs x = (xm0 x, xm1 x, xs0 x, xs1 x), the four containers of an
+   interpreter state.  For EVERY script (lying ==, injected panics), EVERY state
+   (well formed or not), both values of debug, and whether the comparison
+   returns, panics or is undefined: all four registers hold afterwards
+   literally the containers they held before. *)
+Theorem C14_step_OEq_regs :
+  forall (debug : bool) (sc : script) (r r' : N) (x : xworld),
+    regs (snd (step debug sc (OEq r r') x)) = regs x.
+Proof. exact step_OEq_regs. Qed.
+Print Assumptions C14_step_OEq_regs.
+
+Theorem C14_step_SEq_regs :
+  forall (debug : bool) (sc : script) (r r' : N) (x : xworld),
+    regs (snd (step debug sc (SEq r r') x)) = regs x.
+Proof. exact step_SEq_regs. Qed.
+Print Assumptions C14_step_SEq_regs.
+
+(* the instance of the history-level functional theorem (ExecView.step_view):
+   the specification's step for == is the identity on the contents, and the
+   interpreter follows it - here without any hypothesis on script or state *)
+Theorem C14_vstep_OEq :
+  forall (r r' : N) (vw : vworld), vstep (OEq r r') vw = vw /\ vstep (SEq r r') vw = vw.
+Proof. exact (fun r r' vw => conj (vstep_OEq r r' vw) (vstep_SEq r r' vw)). Qed.
+Print Assumptions C14_vstep_OEq.
+
+Theorem C14_step_OEq_view :
+  forall (debug : bool) (sc : script) (r r' : N) (x : xworld),
+    view_x (snd (step debug sc (OEq r r') x)) = vstep (OEq r r') (view_x x).
+Proof. exact step_OEq_view. Qed.
+Print Assumptions C14_step_OEq_view.
+
+Theorem C14_step_SEq_view :
+  forall (debug : bool) (sc : script) (r r' : N) (x : xworld),
+    view_x (snd (step debug sc (SEq r r') x)) = vstep (SEq r r') (view_x x).
+Proof. exact step_SEq_view. Qed.
+Print Assumptions C14_step_SEq_view.
+
+(* an adversarial script (== lies on a quarter of the calls) with a panic
+   injected into the first comparison: the registers are as before *)
+Example C14_example_OEq_adversarial :
+  let sc := {| sc_adv := true; sc_seed := 7; sc_fk := 1; sc_fa := 0 |} in
+  let x := {| xcb := cs0; xm0 := m3; xm1 := m3; xs0 := new_map 0; xs1 := new_map 0; xdead := false |} in
+  fst (step false sc (OEq 0 1) x) = [2; 7777; 3; 3; 1; 5; 2; 7; 3; 6; 4; 8; 5; 7; 6; 9; 8888; 8889]%N /\
+  regs (snd (step false sc (OEq 0 1) x)) = regs x.
+Proof. split; vm_compute; reflexivity. Qed.
+
+(* ---------------------------------------------------------------------- *)
+(* 5. "regardless of ... the history that produced them".  ops_a, ops_b are ANY
+   two histories of the 13 dictionary operations (Dict.dop: insert,
+   insert_key_value, checked_insert, get, get_mut, get_key_value, contains_key,
+   index, index_mut, remove, remove_entry, retain, clear), run by the model
+   (Dict.mfinal) from empty containers of ANY capacities na, nb, from any
+   callback states / logs.  Dict.dfinal is the IDEAL finite dictionary after the
+   same history; d_find its lookup by class.  Both runs exist (no UB), and ==
+   on the two resulting containers answers true IF AND ONLY IF the two ideal
+   dictionaries agree at every class.  Second theorem: if moreover V's == is
+   reflexive and the two ideal dictionaries are THE SAME finite map, the two
+   containers compare equal. *)
+Theorem C14_map_eq_histories :
+  forall (K V Q T : Type) (E : env K V Q T) (ck : K -> N) (cq : Q -> N),
+    Lawful E ck cq ->
+    forall veq : V -> V -> bool,
+    (forall (s : T) (a b : V), fst (eqV E s a b) = (if veq a b then Yes else No)) ->
+    forall (debug : bool) (na nb : nat) (ops_a ops_b : list (@dop K V Q)) (sa sb : T) (la lb : list event),
+    exists wa wb : world K V T,
+      mfinal E debug ops_a {| cb := sa; log := la; self := new_map na |} = Some wa /\
+      mfinal E debug ops_b {| cb := sb; log := lb; self := new_map nb |} = Some wb /\
+      cap (self wa) = na /\
+      cap (self wb) = nb /\
+      (forall w : world K V T,
+          wp (map_eq E (self wa) (self wb))
+             (fun (r : bool) (w' : world K V T) =>
+                stable w w' /\
+                (r = true <->
+                 (forall c : N,
+                     match d_find ck (dfinal ck cq na ops_a []) c, d_find ck (dfinal ck cq nb ops_b []) c with
+                     | Some (_, v), Some (_, v') => veq v' v = true
+                     | None, None => True
+                     | _, _ => False
+                     end)))
+             (fun _ : world K V T => False) w).
+Proof. exact (@map_eq_histories). Qed.
+Print Assumptions C14_map_eq_histories.
+
+Theorem C14_map_eq_same_dict :
+  forall (K V Q T : Type) (E : env K V Q T) (ck : K -> N) (cq : Q -> N),
+    Lawful E ck cq ->
+    forall veq : V -> V -> bool,
+    (forall (s : T) (a b : V), fst (eqV E s a b) = (if veq a b then Yes else No)) ->
+    forall (debug : bool) (na nb : nat) (ops_a ops_b : list (@dop K V Q)) (sa sb : T) (la lb : list event),
+      (forall (s : T) (x : V), fst (eqV E s x x) = Yes) ->
+      (forall c : N, d_find ck (dfinal ck cq na ops_a []) c = d_find ck (dfinal ck cq nb ops_b []) c) ->
+      exists wa wb : world K V T,
+        mfinal E debug ops_a {| cb := sa; log := la; self := new_map na |} = Some wa /\
+        mfinal E debug ops_b {| cb := sb; log := lb; self := new_map nb |} = Some wb /\
+        (forall w : world K V T,
+            exists w' : world K V T, map_eq E (self wa) (self wb) w = Ok true w' /\ stable w w').
+Proof. exact (@map_eq_same_dict). Qed.
+Print Assumptions C14_map_eq_same_dict.
+
+(* two different histories (other order, a removal, an overwritten value, other
+   object identities, capacities 2 and 5) whose ideal dictionaries agree at every
+   class; the model's two final containers differ in slot order and capacity and
+   compare equal *)
+Example C14_example_histories :
+  let E := env_map {| sc_adv := false; sc_seed := 0; sc_fk := 0; sc_fa := 0 |} in
+  let veq := fun a b : vobj => N.eqb (vdat a) (vdat b) in
+  let ops_a : list (@dop key vobj query) := [DInsert (k_ 1 5) (v_ 2 7); DInsert (k_ 3 6) (v_ 4 8)] in
+  let ops_b : list (@dop key vobj query) :=
+    [DInsert (k_ 11 9) (v_ 12 1); DInsert (k_ 13 6) (v_ 14 0); DInsert (k_ 15 5) (v_ 16 7);
+     DRemove (QCls 9); DInsert (k_ 17 6) (v_ 18 8)] in
+  dfinal kcls qcls 2 ops_a [] = [(k_ 1 5, v_ 2 7); (k_ 3 6, v_ 4 8)] /\
+  dfinal kcls qcls 5 ops_b [] = [(k_ 13 6, v_ 18 8); (k_ 15 5, v_ 16 7)] /\
+  (forall c : N,
+      match d_find kcls (dfinal kcls qcls 2 ops_a []) c, d_find kcls (dfinal kcls qcls 5 ops_b []) c with
+      | Some (_, v), Some (_, v') => veq v' v = true
+      | None, None => True
+      | _, _ => False
+      end) /\
+  match mfinal E false ops_a (w_of (new_map 2)), mfinal E false ops_b (w_of (new_map 5)) with
+  | Some wa, Some wb =>
+      self wa = {| len := 2; slots := [Some (k_ 1 5, v_ 2 7); Some (k_ 3 6, v_ 4 8)] |} /\
+      self wb = {| len := 2; slots := [Some (k_ 15 5, v_ 16 7); Some (k_ 13 6, v_ 18 8); None; None; None] |} /\
+      match map_eq E (self wa) (self wb) (w_of (new_map 0)) with
+      | Ok r w' => r = true /\ log w' = [] /\ self w' = new_map 0
+      | _ => False
+      end
+  | _, _ => False
+  end.
+Proof.
+  cbv zeta. split; [vm_compute; reflexivity|]. split; [vm_compute; reflexivity|]. split.
+  - intros c.
+    replace (dfinal kcls qcls 2 [DInsert (k_ 1 5) (v_ 2 7); DInsert (k_ 3 6) (v_ 4 8)] [])
+      with [(k_ 1 5, v_ 2 7); (k_ 3 6, v_ 4 8)] by (vm_compute; reflexivity).
+    replace (dfinal kcls qcls 5 _ []) with [(k_ 13 6, v_ 18 8); (k_ 15 5, v_ 16 7)] by (vm_compute; reflexivity).
+    unfold d_find. cbn [find fst kcls k_].
+    destruct (N.eqb_spec 5 c) as [<-|H5]; [reflexivity|].
+    destruct (N.eqb_spec 6 c) as [<-|H6]; [reflexivity | exact I].
+  - vm_compute. repeat split; reflexivity.
+Qed.
